@@ -102,7 +102,7 @@ Lemma scan_step f n tmp s b0 b1 b2 b3 r :
 Proof.
   intros Hs Ha H0 H1 H2 H3 Hne Ht. cbn [scan_loop].
   assert (Hl : 0 <= 4 <= zlen (s_after s)) by (rewrite Ha; rewrite !zlen_cons; pose proof (zlen_nonneg r); lia).
-  rewrite (s_read_exact 4 s Hs Hl). rewrite Ha. replace (ztake 4 (b0 :: b1 :: b2 :: b3 :: r)) with [b0; b1; b2; b3] by reflexivity.
+  rewrite (s_read_exact 4 s Hs Hl). replace (0 <? 4) with true by reflexivity. rewrite Ha. replace (ztake 4 (b0 :: b1 :: b2 :: b3 :: r)) with [b0; b1; b2; b3] by reflexivity.
   rewrite merge_full by exact Ht. cbn [sp_sig sp_std sp_rules].
   rewrite le_dec4_sig by assumption.
   replace ((b0 =? 76) && (b1 =? 79) && (b2 =? 66) && (b3 =? 74)) with false.
@@ -186,7 +186,7 @@ Proof.
   - (* the signature stands at the cursor *)
     cbn [app] in Ha. cbn [scan_loop].
     assert (Hl : 0 <= 4 <= zlen (s_after s)) by (rewrite Ha; unfold SIGB; cbn [app]; rewrite !zlen_cons; pose proof (zlen_nonneg rest); lia).
-    rewrite (s_read_exact 4 s Hs Hl). rewrite Ha. replace (ztake 4 (SIGB ++ rest)) with SIGB by reflexivity.
+    rewrite (s_read_exact 4 s Hs Hl). replace (0 <? 4) with true by reflexivity. rewrite Ha. replace (ztake 4 (SIGB ++ rest)) with SIGB by reflexivity.
     unfold SIGB at 1. rewrite merge_full by exact Ht. cbn [sp_sig sp_std].
     replace (le_dec [76; 79; 66; 74] =? SIG) with true by reflexivity. reflexivity.
   - inversion Hb as [|? ? B0 Hb1]; subst.
